@@ -77,6 +77,13 @@ func (p *C11) Gen(seed uint64, i int, tier string) *scen.Scenario {
 		sc.Note = "core"
 	} else {
 		r := scen.NewRng(scen.Mix(seed, scen.HashString("C11"), uint64(i)))
+		if r.Chance(1, 8) {
+			// the first logger writes through the library's own file destination to a regular file
+			// (what it emits is read from the file after the episode)
+			sc.World.FileDir = "auto"
+			sc.Setup[0].Opts[0].WK, sc.Setup[0].Opts[1].WK = "libfile", "libfile"
+			sc.Note = "libfile"
+		}
 		nextID := 3
 		bools := func() []bool {
 			switch r.Intn(5) {
@@ -344,18 +351,35 @@ func (p *C11) Check(sc *scen.Scenario, run *orch.Run, env *orch.Env) []orch.Viol
 			if !ok || !op.Probe || o.Skipped {
 				continue
 			}
-			if len(o.Writes) != 1 {
-				out = append(out, orch.Violation{Rule: "C11.probe", Witness: "count", Detail: fmt.Sprintf("probe on logger %d produced %d writes", op.L, len(o.Writes))})
-				continue
+			var payload []byte
+			if sc.Note == "libfile" && op.L == 1 {
+				// the record went to a regular file through slog.NewFileWriter: find it there
+				n := 0
+				for _, ln := range bytes.SplitAfter(run.Files["lf1.log"], []byte("\n")) {
+					if bytes.Contains(ln, []byte(op.Tok)) {
+						payload = ln
+						n++
+					}
+				}
+				if n != 1 {
+					out = append(out, orch.Violation{Rule: "C11.probe", Witness: "count file", Detail: fmt.Sprintf("probe %s on logger %d is found %d times in its log file", op.Tok, op.L, n)})
+					continue
+				}
+			} else {
+				if len(o.Writes) != 1 {
+					out = append(out, orch.Violation{Rule: "C11.probe", Witness: "count", Detail: fmt.Sprintf("probe on logger %d produced %d writes", op.L, len(o.Writes))})
+					continue
+				}
+				payload = o.Writes[0].P
 			}
-			shape := strictShape(o.Writes[0].P)
+			shape := strictShape(payload)
 			if shape != st {
 				sh := "unrecognised"
 				if shape >= 0 {
 					sh = fmtNames[shape]
 				}
 				out = append(out, orch.Violation{Rule: "C11.shape", Witness: "model=" + fmtNames[st] + " bytes=" + sh,
-					Detail: fmt.Sprintf("logger %d is in %s format by its call history but its record looks %s: %.120q", op.L, fmtNames[st], sh, o.Writes[0].P)})
+					Detail: fmt.Sprintf("logger %d is in %s format by its call history but its record looks %s: %.120q", op.L, fmtNames[st], sh, payload)})
 			}
 			continue
 		}
